@@ -408,3 +408,14 @@ CLAIMS["C15"]["note"] += (" Query answers are not judged. A query is planned as 
 CLAIMS["C10"]["text"] += (" Rules are checked as values: after any Block*/Unblock* call the generated caller overwrites or re-uses the net.IP/*net.IPNet it passed, and overwrites everything ListBlocked* returned; enforcement, lists and restart state must still equal the calls that returned success. "
     "The WebRTC-direct listener's own accept-time and post-handshake gating is driven with the real transport over loopback UDP behind an address translator that gives every attempt an arbitrary source IP (v4 as 4 or 16 bytes, or v6).")
 CLAIMS["C10"]["note"] += (" WebRTC-direct cases run in real time on loopback sockets (few cases; verdicts come from events such as a Connected notification or a recorded refusal, never from timeouts; 20 s without an event counts as inconclusive). The datastore double copies values on Put. The WebRTC dialer's InterceptSecured call site and outbound WebRTC dials are not driven.")
+
+CLAIMS["C01"]["text"] += (" Forged identity proofs are also generated over signature encodings: for every key type a signature over the correct message made with a key that is not the named identity key is presented in the usual and in alternative encodings (Secp256k1: compact/recoverable, raw r||s, BER / trailing-byte / high-S DER; ECDSA: P1363 and BER / trailing / high-S DER; Ed25519: non-canonical S, appended bytes, ph and ctx; RSA: PSS, PKCS#1 v1.5 over SHA-512, no DigestInfo, padded), on Noise, TLS, ConfigForPeer (QUIC use) and PubKeyFromCertChain. None may authenticate the remote as the named identity.")
+CLAIMS["C01"]["note"] += (" Each forged signature is confirmed by a reference verifier (stdlib / dcrd) to be a genuine signature by the substituted key in that form. Whether the named key's own signature in an alternative encoding is accepted is recorded but not judged.")
+CLAIMS["C08"]["text"] += (" Envelopes are also checked as in-memory objects: an envelope taken straight from Seal keeps reporting (Record/TypedRecord/address-book acceptance and stored addresses) exactly the content its signature covers while the sealer modifies and re-seals the same record value, and the peer-ID-matches-signer rule is judged on the signed bytes. "
+    "ConsumeTypedEnvelope is exercised with pre-filled caller destinations (a refused envelope leaves them untouched) and with a record type whose Domain() depends on its decoded content (the domain verified is the one the destination named before the call).")
+CLAIMS["C08"]["note"] += (" Destination-untouched is not demanded of ReservationVoucher when the refused payload is authentic (its UnmarshalRecord fills field by field); ConsumeTypedEnvelope re-using one destination across calls (e.cached = destRecord aliasing, by design) is not judged.")
+CLAIMS["C12"]["text"] += (" Addresses of the peer are generated in every form the node can know them: stored literally, or only behind /dnsaddr names (own, shared, nested, with or without a peer suffix) or /dns4 names resolved by a mock resolver; the force-direct rules (no relay address dialled, no relayed connection returned) are checked however the relay address became known. "
+    "A second, real-stack configuration (TestRealStackRelay) is three real BasicHosts in one bubble: real swarms, real upgrader with private network/PSK on or off, Noise or TLS, the real circuit-v2 relay and client, in-memory sockets. It checks on both ends that a connection made through a limited relay is marked Limited, that Connectedness and its events report Limited, that streams need explicit permission, that waiters end at their deadline or on a direct connection arriving, and that force-direct dials never return the relayed connection.")
+CLAIMS["C12"]["note"] += (" 'Limited' ground truth is configuration (a /p2p-circuit connection through a relay configured with limits). All nodes share the PSK or none has one. With link latency a settled point is 50 latencies after quiescence. Outcomes of events at the same virtual instant race for real and either is accepted.")
+CLAIMS["C16"]["text"] += (" TestDialBackSockets runs the server with the real dialer stack (swarm + TCP, QUIC, WebSocket transports on loopback sockets) over dial-back address shapes (tcp, quic-v1, ws, wss, tls/ws, tls/sni/<name>/ws; ports incl. the scheme defaults 80/443; /sni names that are literals of, or resolve via an in-process DNS server to, another/the same/no IP) and checks at the sockets (accept loops on every IP of the case x requested ports + 80 + 443; recorder on the dialer's UDP sockets) that every connection/datagram goes to an (IP, port) named in the request, to a foreign IP only after the requested dial data was consumed, and to one endpoint at most.")
+CLAIMS["C16"]["note"] += (" TestDialBackSockets: IPv4 loopback with AllowPrivateAddrs (public-ness is not exercised there); TCP is observed only at the listening endpoints, UDP at the dialer's socket; real time, few cases (128 quick / 2400 thorough); bind failures and timeouts are counted as skipped, not violations.")
